@@ -129,8 +129,8 @@ def brentLoop (L : Lits α) (g : α → α) : Nat → Brent α → Brent α
 /-- refined event location in `[xold, x]` for one event function: `(t_e, y_e, evaluation times)` -/
 def locate (L : Lits α) (ip : Interp α) (gi : α → Array α → α) (xold x : α) (yold y : Array α) (gPrev gCurr : α) :
     α × Array α × Array α :=
-  if Num.abs gPrev ≤ L.xtol then (xold, yold, #[])
-  else if Num.abs gCurr ≤ L.xtol then (x, y, #[])
+  if Num.eqb gPrev L.zero then (xold, yold, #[])
+  else if Num.eqb gCurr L.zero then (x, y, #[])
   else
     let s0 : Brent α := { a := xold, b := x, c := xold, fa := gPrev, fb := gCurr, fc := gPrev, d := x - xold, e := x - xold, log := #[] }
     let s := brentLoop L (fun t => gi t (ip.eval t)) L.maxIter s0
@@ -253,8 +253,8 @@ def locateAll (L : Lits α) (gEv : α → Array α → Array α) (s : St α) (xo
           some (lst ++ [(r.1, i, r.2.1)], log ++ r.2.2)
         | none =>
           -- `interpolant.unwrap()` is reached only in the Brent branch
-          if Num.abs gp ≤ L.xtol then some (lst ++ [(xold, i, s.yold)], log)
-          else if Num.abs gc ≤ L.xtol then some (lst ++ [(x, i, y)], log)
+          if Num.eqb gp L.zero then some (lst ++ [(xold, i, s.yold)], log)
+          else if Num.eqb gc L.zero then some (lst ++ [(x, i, y)], log)
           else none
       else some (lst, log)) (some ([], #[]))
 
